@@ -83,6 +83,9 @@ fn cmd_check(args: &[String]) -> i32 {
     if prop == "C11" {
         checks::run_c11(tier, budget, &mut frag);
     }
+    if prop == "C13" {
+        checks::run_c13_probe(&mut frag);
+    }
     if prop == "C15" {
         checks::run_c15(tier, budget, &mut frag);
     }
